@@ -100,8 +100,17 @@ impl EraYear {
         match (partial.year, partial.era, partial.era_year) {
             (Some(year), None, None) => {
                 let Some(era) = partial.calendar.get_calendar_default_era() else {
-                    return Err(TemporalError::r#type()
-                        .with_message("Era is required for the provided calendar."));
+                    // The years of this calendar are split between eras.
+                    let Some((era, era_year)) = partial.calendar.era_year_for_arithmetic_year(year)
+                    else {
+                        return Err(TemporalError::r#type()
+                            .with_message("Era is required for the provided calendar."));
+                    };
+                    return Ok(Self {
+                        era: Era(era),
+                        year: era_year,
+                        arithmetic_year: None,
+                    });
                 };
                 Ok(Self {
                     era: Era(era.name),
